@@ -56,6 +56,34 @@ func changeNotSkipped(w *load.World, c *core.Collector) {
 	for f := range fns {
 		list = append(list, f)
 	}
+	// a thunk (an instantiation wrapper, a one-line forwarder) hands its callee's results on: the
+	// callee is the transform
+	for i, f := range list {
+		for hop := 0; hop < 2; hop++ {
+			var fwd *ssa.Function
+			n := 0
+			for _, b := range f.Blocks {
+				ret, ok := b.Instrs[len(b.Instrs)-1].(*ssa.Return)
+				if !ok || len(ret.Results) < 2 {
+					continue
+				}
+				n++
+				if ex, ok := ret.Results[1].(*ssa.Extract); ok {
+					if call, ok := ex.Tuple.(*ssa.Call); ok {
+						if g := call.Call.StaticCallee(); g != nil && ssax.InModule(g) && len(g.Blocks) > 0 {
+							fwd = g
+						}
+					}
+				}
+			}
+			if n == 1 && fwd != nil {
+				f = fwd
+				list[i] = f
+				continue
+			}
+			break
+		}
+	}
 	sort.Slice(list, func(i, j int) bool { return list[i].String() < list[j].String() })
 	done := map[string]bool{}
 	for _, f := range list {
@@ -263,11 +291,25 @@ func oneTransaction(w *load.World, c *core.Collector) {
 					if h := ci.Common().StaticCallee(); h != nil && load.PkgPath(h) == load.PkgPath(f) && len(h.Blocks) > 0 {
 						visit(h, lp, depth+1)
 					}
-					for _, a := range ci.Common().Args {
+					for ai, a := range ci.Common().Args {
 						if mc, ok := a.(*ssa.MakeClosure); ok {
-							// a literal handed to something else runs as often as that something likes: the body
-							// of a range-over-func loop, a per-item callback
-							visit(mc.Fn.(*ssa.Function), true, depth+1)
+							// a literal (or a bound method) handed to something else runs as often as that
+							// something calls it: once when a helper of the module calls its parameter outside
+							// any loop, otherwise as often as it likes (the body of a range-over-func loop, a
+							// per-item callback)
+							often := true
+							if h := ci.Common().StaticCallee(); h != nil && ssax.InModule(h) && len(h.Blocks) > 0 {
+								pi := ai
+								if h.Signature.Recv() == nil && false {
+									pi = ai
+								}
+								if pi < len(h.Params) {
+									if once, known := paramCalledOnce(h.Params[pi], 0); known && once {
+										often = false
+									}
+								}
+							}
+							visit(mc.Fn.(*ssa.Function), lp || often, depth+1)
 						}
 					}
 				}
@@ -625,4 +667,81 @@ func funcValuesOf(w *load.World, v ssa.Value, depth int) []*ssa.Function {
 		}
 	}
 	return nil
+}
+
+// paramCalledOnce: the function-typed parameter is only ever called, and never from a loop (it may
+// be handed on to another function of the module that does the same)
+func paramCalledOnce(p *ssa.Parameter, depth int) (once, known bool) {
+	if depth > 2 || p.Referrers() == nil {
+		return false, false
+	}
+	vals := []ssa.Value{p}
+	// a parameter captured or spilled: follow its cell's loads
+	for _, r := range *p.Referrers() {
+		if st, ok := r.(*ssa.Store); ok && st.Val == ssa.Value(p) {
+			if al, ok := st.Addr.(*ssa.Alloc); ok {
+				for _, rr := range *al.Referrers() {
+					switch x := rr.(type) {
+					case *ssa.UnOp:
+						vals = append(vals, x)
+					case *ssa.MakeClosure:
+						fn := x.Fn.(*ssa.Function)
+						for i, b := range x.Bindings {
+							if b == ssa.Value(al) {
+								for _, fr := range *fn.FreeVars[i].Referrers() {
+									if ld, ok := fr.(*ssa.UnOp); ok {
+										vals = append(vals, ld)
+									}
+								}
+							}
+						}
+					}
+				}
+			} else {
+				return false, false
+			}
+		}
+	}
+	calls := 0
+	for _, v := range vals {
+		for _, r := range *v.Referrers() {
+			switch x := r.(type) {
+			case *ssa.Store, *ssa.DebugRef:
+			case *ssa.Call:
+				if x.Call.Value == v {
+					if inLoop(x.Block()) || x.Parent().Parent() != nil && x.Parent() != p.Parent() {
+						// in a loop, or inside a literal (which may itself run many times)
+						if inLoop(x.Block()) {
+							return false, true
+						}
+					}
+					calls++
+					continue
+				}
+				// handed on
+				h := x.Call.StaticCallee()
+				if h == nil || !ssax.InModule(h) {
+					return false, true
+				}
+				ok2 := false
+				for i, a := range x.Call.Args {
+					if a == v && i < len(h.Params) {
+						o, k := paramCalledOnce(h.Params[i], depth+1)
+						if !k || !o || inLoop(x.Block()) {
+							return false, true
+						}
+						ok2 = true
+					}
+				}
+				if !ok2 {
+					return false, true
+				}
+				calls++
+			case *ssa.UnOp:
+			default:
+				return false, true
+			}
+		}
+	}
+	return calls >= 1, true
 }
